@@ -5788,7 +5788,9 @@ class CodegenCtx:
         if constant is None or target.type != OutputStorageType.INT:
             return
         bits = 8 * (target.int_width or 4)
-        if not (-(1 << (bits - 1)) <= constant < (1 << (bits - 1)) if target.int_signed else 0 <= constant < (1 << bits)):
+        # (a negative constant stored into an unsigned output wraps around as it does in C -- `u = [0 - 1]` is the usual way to write "all ones" --
+        # as long as it fits the signed type of the same width; that is also where the C compiler draws the line)
+        if not -(1 << (bits - 1)) <= constant < (1 << (bits - 1 if target.int_signed else bits)):
             raise IllegalIntExpr(f"Constant {constant} does not fit output {target.name}", intexpr)
 
     def _generate_code_for_int_expr(self, intexpr: IntegerExpr, ctx: IntegerExprUseContext, out_expr: OutputStorage=None):
